@@ -287,6 +287,37 @@ def run(E: Engine, rep: Report, tier: str) -> dict:
     t_args = [dict(l.value[3]).get("t") for l in v2r5.log if l.kind == "call" and l.value[3] and dict(l.value[3]).get("t") is not None and dict(l.value[3]).get("result") is not None]
     raw_t = [t_ for t_ in t_args if unobj(t_)[0] == "attr" and unobj(t_)[2] == "evaluation_time"]
     rep.check(bool(t_args) and not raw_t, "TABLE", "QutipBackendV2.run|results-stored-at-configured-times", "t handed to the observables is a configured relative time", "QutipBackendV2.run stores every result under `qutip_res.evaluation_time`, the relative time converted to microseconds for the solver and back: r = 0.9 with T = 10 ns comes back as 0.8999999999999999, so Results.get_result('state', 0.9) raises although that time was configured", E.where(v2run))
+    # (e) with no driven basis the emulation basis follows the mode of the sequence: XY samples live in (u, d) -- the
+    #     siblings SequenceSamples.eigenbasis and the interaction say XY, so the basis NAME (which selects the default
+    #     measurement basis and the bit convention) must too
+    gbn = E.fn("pulser_simulation.hamiltonian.Hamiltonian._get_basis_name")
+    r_b = S(E, gbn, inline=False).ret
+    rep.check(r_b is not None and mentions(r_b, "_in_xy") and any(t == ("const", "XY") for t in sym.subterms(r_b)), "TABLE", "Hamiltonian._get_basis_name|undriven-xy-sequence-is-XY", "no used basis: 'XY' if the samples are in XY mode, else 'ground-rydberg'",
+              f"Hamiltonian._get_basis_name returns `{sh(r_b, 140) if r_b is not None else None}`: an XY sequence whose drive is all zero (delays only) is named 'ground-rydberg' while its states live in (u, d) -- the untouched |uu> is read with the r-first convention and samples as '11' instead of '00'", E.where(gbn))
+    # (f) the collapse operators are REBUILT by every configuration: the list is reset before it is filled (set_config /
+    #     add_config on an emulator that already has a dissipative model would otherwise double every decay rate)
+    bco = E.fn("pulser_simulation.hamiltonian.Hamiltonian._build_collapse_operators")
+    lg = S(E, bco, inline=False).log
+    co = ("attr", ("name", "self"), "_collapse_ops")
+    i_reset = [i for i, l in enumerate(lg) if l.kind == "store" and l.target == co and l.value is not None and not sym.contains(l.value, co) and not l.loops]
+    i_grow = [i for i, l in enumerate(lg) if (l.kind == "aug" and l.target == co) or (l.kind == "store" and l.target == co and l.value is not None and sym.contains(l.value, co)) or (l.kind == "call" and l.target is not None and l.target[0] == "attr" and l.target[2] in ("extend", "append", "insert") and unobj(l.target[1]) == co)]
+    if i_grow:
+        rep.check(bool(i_reset) and min(i_reset) < min(i_grow), "TABLE", "Hamiltonian._build_collapse_operators|list-reset-before-it-is-filled", "self._collapse_ops = <fresh list> precedes the accumulation",
+                  "Hamiltonian._build_collapse_operators adds the operators of the new configuration to self._collapse_ops without resetting it: a second set_config / add_config keeps the operators of the previous model too, so decay rates double (P_r = 0.129 instead of exp(-1) after 2 us at rate 0.5) and the emulator disagrees with a freshly built one", E.where(bco))
+    else:
+        rep.check(bool(i_reset), "TABLE", "Hamiltonian._build_collapse_operators|list-reset-before-it-is-filled", "self._collapse_ops is assigned a fresh list", "self._collapse_ops is no longer assigned in _build_collapse_operators", E.where(bco))
+    # (g) the noiseless Hamiltonian handed to the observables is the emulated one without noise: same samples, qubits and
+    #     sampling rate as the emulator's own
+    nlh = E.fn("pulser_simulation.simulation.QutipEmulator._noiseless_hamiltonian")
+    hc = [l for l in S(E, nlh, inline=False).log if l.kind == "call" and l.value[1] == ("name", "Hamiltonian")]
+    if not hc:
+        raise AnalysisError("anchor: QutipEmulator._noiseless_hamiltonian no longer builds a Hamiltonian")
+    a_ = hc[-1].value[2]
+    kw_ = dict(hc[-1].value[3])
+    sr_ = a_[3] if len(a_) > 3 else kw_.get("sampling_rate")
+    so_ = a_[0] if a_ else kw_.get("samples_obj")
+    rep.check(sr_ == ("attr", ("name", "self"), "_sampling_rate") and so_ == ("attr", ("name", "self"), "samples_obj"), "TABLE", "QutipEmulator._noiseless_hamiltonian|same-samples-and-sampling-rate", "Hamiltonian(self.samples_obj, ..., self._sampling_rate, <noiseless model>)",
+              f"the noiseless Hamiltonian is built from samples `{sh(so_, 40) if so_ is not None else None}` at sampling rate `{sh(sr_, 40) if sr_ is not None else None}`: with sampling_rate < 1 the emulation runs on the sub-sampled, interpolated Hamiltonian, so Energy / EnergyVariance are computed with a different H(t) from the one that produced the state", E.where(nlh))
     rep.floor("TABLE", 31)
 
     # ---------------------------------------------------------------- SIB
